@@ -195,6 +195,9 @@ NoGhostInvoke == PropHolds(st).NoGhostInvoke
 StreamOwnerIsReserver == PropHolds(st).StreamOwnerIsReserver
 OkHasBody == PropHolds(st).OkHasBody
 ResetIsFresh == PropHolds(st).ResetIsFresh
+\* state constraints that cut off the behaviours of the recorded findings (lib/mcrapid.py)
+NoDoubleReset == \A k \in DOMAIN st.iv : ~(<<k, "T">> \in DOMAIN st.rs /\ <<k, "F">> \in DOMAIN st.rs)
+KnownFindingsCutOff == NoGhostInvoke /\ NoDoubleReset
 \* vacuity guards: each of these "invariants" must be violated (the antecedent is reachable)
 Unreach_RuntimeAfterRegistrations == ~PropAntecedent(st).RuntimeAfterRegistrations
 Unreach_NoEventBeforeAllNext == ~PropAntecedent(st).NoEventBeforeAllNext
